@@ -25,6 +25,8 @@ type consumerPlan struct {
 
 type relayScenario struct {
 	PushDead int // extra relay-push targets that refuse connections
+	PushMore int // extra healthy relay-push targets (each must receive the whole stream)
+	AckEvery int // RTMP consumers acknowledge (message type 3) after every AckEvery bytes received, as real players do (0 = never)
 	Conf      srv.Conf
 	Shape     gen.Shape
 	More      []gen.Shape // further incarnations of the same stream name, published one after the other
@@ -66,6 +68,8 @@ type relayResult struct {
 	Consumers []*consumerRec
 	Err       string // harness-level failure → inconclusive
 	PushSeen  bool
+	PushTargetsSeen    int
+	PushTargetsMissing []int
 }
 
 func mapRtmp(ix *gen.Index, msgs []ref.RtmpMsg) []recvItem {
@@ -119,11 +123,18 @@ func (lc *liveConsumer) localAddr() string {
 }
 
 func startConsumer(s *srv.Server, kind, stream string) (*liveConsumer, error) {
+	return startConsumerAck(s, kind, stream, 0)
+}
+
+func startConsumerAck(s *srv.Server, kind, stream string, ackEvery int) (*liveConsumer, error) {
 	lc := &liveConsumer{}
 	var err error
 	switch kind {
 	case "rtmp":
 		lc.rtmp, err = ref.StartRtmpSubscriber(s.RtmpAddr(), "live", stream, 5*time.Second)
+		if err == nil && ackEvery > 0 {
+			lc.rtmp.SetAckEvery(ackEvery)
+		}
 	case "flv":
 		lc.http, err = srv.StartHttpSub(s.HttpAddr(), "/live/"+stream+".flv", "flv", 5*time.Second)
 	case "wsflv":
@@ -151,6 +162,7 @@ func runRelay(c *fw.Ctx, sc relayScenario, rng *rand.Rand) (res relayResult) {
 	defer os.RemoveAll(root)
 	conf := sc.Conf
 	var stub *ref.RtmpStub
+	var moreStubs []*ref.RtmpStub
 	if sc.Push {
 		var err error
 		stub, err = ref.NewRtmpStub(nil)
@@ -160,6 +172,16 @@ func runRelay(c *fw.Ctx, sc relayScenario, rng *rand.Rand) (res relayResult) {
 		}
 		defer stub.Close()
 		conf.PushAddrs = []string{stub.Addr}
+		for k := 0; k < sc.PushMore; k++ {
+			st2, err := ref.NewRtmpStub(nil)
+			if err != nil {
+				res.Err = "stub: " + err.Error()
+				return
+			}
+			defer st2.Close()
+			moreStubs = append(moreStubs, st2)
+			conf.PushAddrs = append(conf.PushAddrs, st2.Addr)
+		}
 		// further targets that are down (nothing listens): they must not affect the healthy one
 		for k := 0; k < sc.PushDead; k++ {
 			port, release := srv.DeadPort()
@@ -193,7 +215,7 @@ func runRelay(c *fw.Ctx, sc relayScenario, rng *rand.Rand) (res relayResult) {
 	join := func(p consumerPlan, k int) {
 		rec := &consumerRec{Plan: p, Kind: p.Kind, JoinK: k, LeftAt: -1, IncStart: incStart}
 		res.Consumers = append(res.Consumers, rec)
-		lc, err := startConsumer(s, p.Kind, sc.Stream)
+		lc, err := startConsumerAck(s, p.Kind, sc.Stream, sc.AckEvery)
 		if err != nil {
 			rec.Note = "join failed: " + err.Error()
 			return
@@ -274,8 +296,10 @@ func runRelay(c *fw.Ctx, sc relayScenario, rng *rand.Rand) (res relayResult) {
 				}
 			}
 			if stub != nil {
-				for _, ss := range stub.Snapshot() {
-					sum += ss.RC.BytesRead()
+				for _, st := range append([]*ref.RtmpStub{stub}, moreStubs...) {
+					for _, ss := range st.Snapshot() {
+						sum += ss.RC.BytesRead()
+					}
 				}
 			}
 			if sum == last {
@@ -446,7 +470,28 @@ func runRelay(c *fw.Ctx, sc relayScenario, rng *rand.Rand) (res relayResult) {
 		}
 	}
 	if stub != nil {
-		for _, ss := range stub.Snapshot() {
+		for ti, st := range append([]*ref.RtmpStub{stub}, moreStubs...) {
+			got := false
+			for _, ss := range st.Snapshot() {
+				if role, _, _ := ss.GetRole(); role == "publish" {
+					got = true
+				}
+			}
+			if got {
+				res.PushTargetsSeen++
+			} else {
+				res.PushTargetsMissing = append(res.PushTargetsMissing, ti)
+			}
+		}
+	}
+	var allPush []*ref.StubSession
+	if stub != nil {
+		for _, st := range append([]*ref.RtmpStub{stub}, moreStubs...) {
+			allPush = append(allPush, st.Snapshot()...)
+		}
+	}
+	if stub != nil {
+		for _, ss := range allPush {
 			role, _, _ := ss.GetRole()
 			if role != "publish" {
 				continue
